@@ -2,7 +2,7 @@
 import os
 from vf import common
 
-RULE = ("state graph: roots = fresh stream (counter 1) and streams with both counters preset to 2^32-1, 2^32-2, 2^32-3; state-changing "
+RULE = ("state graph: roots = fresh stream (counter 1) and streams with both counters preset to 2^32-1, 2^32-2, 2^32-3 and to 0xfe, 0xfffe, 0xfffffe, 0x7ffffffe (just before each counter byte carries); state-changing "
         "transitions = push(tag in {MESSAGE,PUSH,REKEY,FINAL}, shape in {(mlen 0, no ad),(mlen 17, ad 5)}), explicit rekey of pusher, "
         "explicit rekey of puller, pull(genuine next chunk); at EVERY reached node additionally every rejecting pull variant is "
         "tried as a self-loop: next chunk with AD changed/removed/truncated/added, truncated by 1 / to 16 / to 0 bytes, extended, bit "
